@@ -33,6 +33,7 @@ from hypothesis import strategies as st
 from vlib.core import Result, Unit
 from vlib import harness
 from vlib import fsmon
+from vlib import wallsess
 
 ID = 'C27'
 LEVEL = 'exploration'
@@ -287,7 +288,15 @@ def _allowed_reads():
 
 def check_case(case):
     res = Result()
-    return _check(case, res, shared_sandbox())
+    wallsess.reset()
+    res = _check(case, res, shared_sandbox())
+    if wallsess.hit():
+        # the runner's per-case wall limit cut a statement short: nothing observed afterwards
+        # can be trusted
+        res = Result()
+        res.inconclusive = True
+        res.label('case-wall-limit')
+    return res
 
 
 def _check(case, res, sb):
@@ -300,7 +309,7 @@ def _check(case, res, sb):
     ops = list(case['ops']) + [{'k': 'FILES0'}, {'k': 'FILES', 'p': 'D:'}]
     known_a = False           # a path in the dotdot-blank region was used earlier in this history
     nontrivial = False
-    sess = harness.Sess(sandbox=sb, budget=4000, video='cga',
+    sess = wallsess.WallSess(sandbox=sb, budget=4000, video='cga',
                         devices={'C': spec_c, 'D': md, 'Z': None},
                         current_device='C:')
     try:
